@@ -280,11 +280,12 @@ LeafAttempt(it, R, envv, acc0) ==
                    ELSE IF it.kind # "arg" THEN (IF it.arity = "count" THEN [count |-> 1] ELSE IF it.arity \in {"many", "some"} THEN <<"U">> ELSE "U")
                    ELSE IF it.arity \in {"many", "some"} THEN <<Conv(it, ev)>>
                    ELSE IF it.arity = "opt" THEN [some |-> Conv(it, ev)] ELSE Conv(it, ev)]
-  ELSE IF it.kind = "arg" /\ it.arity \in {"many", "some"}
-  THEN \* a repeated member takes every remaining occurrence
+  ELSE IF it.kind = "arg" /\ it.arity \in {"many", "some", "last"}
+  THEN \* a repeated member takes every remaining occurrence (`last`: and keeps the last one)
        IF \E i \in DOMAIN occ : BadValue(it, occ[i].v) THEN [res |-> "hard", v |-> "NONE", used |-> {}, left |-> 0, all |-> TRUE]
-       ELSE IF occ = <<>> THEN [res |-> IF it.arity = "some" THEN "miss" ELSE "ok", v |-> <<>>, used |-> {}, left |-> 0, all |-> TRUE]
-       ELSE [res |-> "ok", v |-> [i \in DOMAIN occ |-> Conv(it, occ[i].v)], used |-> {it.id}, left |-> occ[1].p, all |-> TRUE]
+       ELSE IF occ = <<>> THEN [res |-> IF it.arity = "many" THEN "ok" ELSE "miss", v |-> <<>>, used |-> {}, left |-> 0, all |-> TRUE]
+       ELSE [res |-> "ok", used |-> {it.id}, left |-> occ[1].p, all |-> TRUE,
+             v |-> IF it.arity = "last" THEN Conv(it, occ[Len(occ)].v) ELSE [i \in DOMAIN occ |-> Conv(it, occ[i].v)]]
   ELSE IF it.kind = "reqflag" /\ it.arity \in {"many", "some", "count"}
   THEN \* ... and so does a repeated or counted flag
        IF occ = <<>> THEN [res |-> IF it.arity = "some" THEN "miss" ELSE "ok", used |-> {}, left |-> 0, all |-> TRUE,
